@@ -51,6 +51,10 @@ type timeline struct {
 	Bursters      int // goroutines that hit every boundary together
 	// AsFile: while the directory is away a regular file sits at its path (the path exists, is not a directory)
 	AsFile bool
+	// Relink: the configured directory is a symbolic link (.../current/logs); an outage takes the link
+	// and the directory behind it away, and ends with the link pointing at a new, empty directory
+	// (a deployment switched over). The configured path is valid again: creation resumes there.
+	Relink bool
 	// Companion: a second rolling appender (other name, interval of this many seconds, 0 = none)
 	// lives in the same directory and is written to every 100 ms: one appender's failed rotation is
 	// that appender's business only
@@ -72,7 +76,7 @@ type timeline struct {
 }
 
 func (tl timeline) String() string {
-	return fmt.Sprintf("dur=%dms outages=%v writers=%d periods=%v viaLogger=%v bursters=%d asFile=%v companion=%ds interval=%ds asyncRoot=%v flooders=%d rollingLogger=%v", tl.DurMS, tl.Outages, tl.Writers, tl.PeriodMS, tl.ViaLogger, tl.Bursters, tl.AsFile, tl.Companion, max(tl.IntervalS, 1), tl.AsyncRoot, tl.Flooders, tl.RollingLogger)
+	return fmt.Sprintf("dur=%dms outages=%v writers=%d periods=%v viaLogger=%v bursters=%d asFile=%v companion=%ds interval=%ds asyncRoot=%v flooders=%d rollingLogger=%v relink=%v", tl.DurMS, tl.Outages, tl.Writers, tl.PeriodMS, tl.ViaLogger, tl.Bursters, tl.AsFile, tl.Companion, max(tl.IntervalS, 1), tl.AsyncRoot, tl.Flooders, tl.RollingLogger, tl.Relink)
 }
 
 func genTimeline(t *rapid.T, label string) timeline {
@@ -90,6 +94,7 @@ func genTimeline(t *rapid.T, label string) timeline {
 		from = b + 200
 	}
 	tl.AsFile = rapid.IntRange(0, 3).Draw(t, label+"asFile") == 0
+	tl.Relink = !tl.AsFile && rapid.IntRange(0, 3).Draw(t, label+"relink") == 0
 	tl.Companion = rapid.SampledFrom([]int{0, 0, 2, 3}).Draw(t, label+"companion")
 	if tl.Companion > 0 && rapid.Bool().Draw(t, label+"aligned") {
 		align(t, label, &tl)
@@ -153,7 +158,17 @@ func runTimeline(tl timeline, parent string) outcome {
 	iv := time.Duration(max(tl.IntervalS, 1)) * time.Second
 	dir := filepath.Join(parent, "logs")
 	away := filepath.Join(parent, "logs.away")
-	_ = os.MkdirAll(dir, 0o755)
+	realDir, generation := "", 0
+	if tl.Relink {
+		realDir = filepath.Join(parent, "real0")
+		_ = os.MkdirAll(realDir, 0o755)
+		if err := os.Symlink(realDir, dir); err != nil {
+			return outcome{err: fmt.Errorf("VERIF-INCONCLUSIVE: %v", err)}
+		}
+		vk.Class("outage-ends-with-relinked-directory")
+	} else {
+		_ = os.MkdirAll(dir, 0o755)
+	}
 	var write func(line string) (panicked any, blocked bool)
 	var rawWrite func(line string) // no watchdog goroutine in the way: used by the boundary bursts
 	var stop func()
@@ -350,6 +365,25 @@ func runTimeline(tl timeline, parent string) outcome {
 	for _, o := range tl.Outages {
 		time.Sleep(time.Until(startT.Add(time.Duration(o.FromMS) * time.Millisecond)))
 		t0 := time.Now()
+		if tl.Relink {
+			if err := os.Remove(dir); err != nil {
+				return outcome{err: fmt.Errorf("VERIF-INCONCLUSIVE: unlink: %v", err)}
+			}
+			if err := os.Rename(realDir, realDir+".gone"); err != nil {
+				return outcome{err: fmt.Errorf("VERIF-INCONCLUSIVE: rename: %v", err)}
+			}
+			t1 := time.Now()
+			time.Sleep(time.Until(startT.Add(time.Duration(o.ToMS) * time.Millisecond)))
+			t2 := time.Now()
+			generation++
+			realDir = filepath.Join(parent, fmt.Sprintf("real%d", generation))
+			_ = os.MkdirAll(realDir, 0o755)
+			if err := os.Symlink(realDir, dir); err != nil {
+				return outcome{err: fmt.Errorf("VERIF-INCONCLUSIVE: relink: %v", err)}
+			}
+			spans = append(spans, span{t0, time.Now(), t1, t2})
+			continue
+		}
 		if err := os.Rename(dir, away); err != nil {
 			return outcome{err: fmt.Errorf("VERIF-INCONCLUSIVE: rename: %v", err)}
 		}
@@ -385,6 +419,22 @@ func runTimeline(tl timeline, parent string) outcome {
 	}
 	if firstErr != nil {
 		return outcome{err: firstErr}
+	}
+	if tl.Relink {
+		// the files of the earlier directories (the one open during an outage kept being written
+		// there) are judged together with those of the directory the link points at now
+		for g := 0; g < generation; g++ {
+			old := filepath.Join(parent, fmt.Sprintf("real%d.gone", g))
+			es, _ := os.ReadDir(old)
+			for _, e := range es {
+				b, _ := os.ReadFile(filepath.Join(old, e.Name()))
+				f, err := os.OpenFile(filepath.Join(realDir, e.Name()), os.O_CREATE|os.O_WRONLY|os.O_APPEND, 0o644)
+				if err == nil {
+					_, _ = f.Write(b)
+					_ = f.Close()
+				}
+			}
+		}
 	}
 	// ---- oracle
 	ents, _ := os.ReadDir(dir)
